@@ -82,13 +82,21 @@ def sec_get_result(rep):
     sy = H.Sy()
     pre = kin_pre(sy)
     keysets = {0: [(0, 0, 0, 0), (1, 0, 0, 0)], 1: [(1, 0, 0, 0)], 2: [(0, 0, 0, 0), (1, 0, 0, 0), (1, 0, 1, 0)]}
-    for kind in UNPOL + ("g5",):
-        for proj, pid in H.PROJECTILES.items():
-            for flavor in ("total", "charm", "light", "bottomlight"):
+    # the combination is the same at every perturbative order and with or without target-mass
+    # corrections: FL is asked for at LO too (it does not vanish there for massive quarks)
+    variants = [(kind, proj, pid, flavor, 1, 0) for kind in UNPOL + ("g5",) for proj, pid in H.PROJECTILES.items() for flavor in ("total", "charm", "light", "bottomlight")]
+    variants += [(kind, proj, pid, flavor, pto, tmc) for kind in UNPOL + ("g5",) for proj, pid in (("electron", 11), ("antineutrino", -12)) for flavor in ("total", "charm") for pto, tmc in ((0, 0), (0, 2), (3, 0))]
+    variants = [v + ("ZM-VFNS",) for v in variants]
+    # ... and in a scheme where the tagged quark is massive (its F3 does not vanish in NC: the
+    # heavy-quark-initiated kernels carry it)
+    variants += [(kind, proj, pid, flavor, 1, 0, "FFNS") for kind in UNPOL + ("g5",) for proj, pid in (("electron", 11), ("positron", -11)) for flavor in ("charm", "bottom", "total")]
+    for kind, proj, pid, flavor, pto, tmc, scheme in variants:
+        for _once in (0,):
+            for _once2 in (0,):
                 rep.cases += 1
 
-                def case(sy, kind=kind, proj=proj, pid=pid, flavor=flavor):
-                    cfg = H.make_configs(sy, process="NC", projectile=proj)
+                def case(sy, kind=kind, proj=proj, pid=pid, flavor=flavor, pto=pto, tmc=tmc, scheme=scheme):
+                    cfg = H.make_configs(sy, process="NC", projectile=proj, pto=pto, tmc=tmc, scheme=scheme)
                     kin = {"x": sy.x, "Q2": sy.Q2, "y": sy.y}
                     requests = []
                     basis = ("g4", "gL", "g1") if kind == "g5" else ("F2", "FL", "F3")
@@ -128,7 +136,7 @@ def sec_get_result(rep):
                     return out
 
                 extra = [Not(Eq(sy.y**2 / 2 + (1 - sy.y) - sy.M2target * (sy.x * sy.y) ** 2 / sy.Q2, 0))] if kind == "FW" else []
-                rep.check(f"C11/get_result/post/{kind}_{flavor}/{proj}", case, sy, pre + extra)
+                rep.check(f"C11/get_result/post/{kind}_{flavor}/{proj}" + ("" if (pto, tmc) == (1, 0) else f"/pto={pto},TMC={tmc}") + ("" if scheme == "ZM-VFNS" else f"/{scheme}"), case, sy, pre + extra)
 
 
 def sec_xs(rep):
